@@ -621,7 +621,10 @@ def _ssl_client_hello():
 
 @register(SUB + 'SslHandshakeServerHello')
 def _ssl_server_hello():
-    return obj(SUB + 'SslHandshakeServerHello', certificate=blob(0, 600),
+    # record bodies beyond 2^14 bytes need the full 15-bit length of the 2-byte SSL 2.0 record header
+    certificate_sizes = st.integers(0, 9).flatmap(
+        lambda roll: st.sampled_from([16370, 16384, 16400, 32000]) if roll == 9 else sizes(0, 600))
+    return obj(SUB + 'SslHandshakeServerHello', certificate=blob(0, 32000, 'b', certificate_sizes),
                cipher_kinds=st.lists(enum_(ALG + 'SslCipherKind'), max_size=14),
                connection_id=OPT(blob(0, 32)), session_id_hit=OPT(st.booleans()))
 
@@ -908,8 +911,8 @@ def _rrsig():
     return obj(DNS + 'DnsRecordRrsig',
                type_covered=st.one_of(enum_(CDH + 'dnsrec.algorithm:DnsRrType'), S(DNS + 'DnsRrTypePrivate')),
                algorithm=enum_(CDH + 'dnsrec.algorithm:DnsSecAlgorithm'), labels=uint(8), original_ttl=uint(32),
-               signature_expiration=datetime_ms(0, MAX_EPOCH_S * 1000, 'dateutil', 1000),
-               signature_inception=datetime_ms(0, MAX_EPOCH_S * 1000, 'dateutil', 1000),
+               signature_expiration=datetime_ms(0, ((1 << 32) - 1) * 1000, 'dateutil', 1000),
+               signature_inception=datetime_ms(0, ((1 << 32) - 1) * 1000, 'dateutil', 1000),
                key_tag=uint(16), signers_name=S(DNS + 'DnsNameUncompressed'), signature=blob(0, 300, 'ba'))
 
 
